@@ -1,9 +1,9 @@
 /-
   Helper lemmas for LcdbModel.Model.FilterBlock (core Lean only).
 
-  `layout fs` is the byte layout of a filter block holding the filters `fs`
-  (empty list = "no keys in this 2 KiB range").  Part 1: the reader on `layout fs` selects
-  exactly `fs[idx]`.  Part 2: the builder produces `layout fs` for a list `fs` in which every
+  `filterLayout fs` is the byte filterLayout of a filter block holding the filters `fs`
+  (empty list = "no keys in this 2 KiB range").  Part 1: the reader on `filterLayout fs` selects
+  exactly `fs[idx]`.  Part 2: the builder produces `filterLayout fs` for a list `fs` in which every
   key added under block offset `off` is in (the key set of) filter `off / 2048`.
 -/
 import LcdbModel.Model.FilterBlock
@@ -44,7 +44,7 @@ theorem fixed32At_entry (D T : Bytes) (xs : List Nat) (i : Nat) (hi : i < xs.len
     rw [this]; omega
   rw [e, extract_mid' _ _ _ _ 4 hA (fixedEnc_length' 4 _).symm, fixedDec_fixedEnc']
 
-/-! ### layout of a filter block -/
+/-! ### filterLayout of a filter block -/
 
 /-- start offset of each filter inside the concatenation -/
 def offsetsOf (fs : List Bytes) : List Nat :=
@@ -77,17 +77,17 @@ theorem offsetsOf'_getElem (fs : List Bytes) (i : Nat) (hi : i < (offsetsOf' fs)
   simp only [offsetsOf', List.getElem_map, List.getElem_range]
 
 /-- the bytes of a filter block that holds the filters `fs` -/
-def layout (fs : List Bytes) : Bytes :=
+def filterLayout (fs : List Bytes) : Bytes :=
   fs.flatten ++ (offsetsOf fs).flatMap (fixedEnc 4) ++ fixedEnc 4 fs.flatten.length
     ++ [UInt8.ofNat filterBaseLg]
 
 theorem layout_eq (fs : List Bytes) :
-    layout fs = fs.flatten ++ (offsetsOf' fs).flatMap (fixedEnc 4) ++ [UInt8.ofNat filterBaseLg] := by
-  unfold layout
+    filterLayout fs = fs.flatten ++ (offsetsOf' fs).flatMap (fixedEnc 4) ++ [UInt8.ofNat filterBaseLg] := by
+  unfold filterLayout
   rw [offsetsOf'_eq, List.flatMap_append, List.flatMap_singleton]
   simp [List.append_assoc]
 
-theorem layout_length (fs : List Bytes) : (layout fs).length = fs.flatten.length + 4 * fs.length + 5 := by
+theorem layout_length (fs : List Bytes) : (filterLayout fs).length = fs.flatten.length + 4 * fs.length + 5 := by
   rw [layout_eq, List.length_append, List.length_append, flatMap_fixedEnc4_length, offsetsOf'_length]
   simp; omega
 
@@ -103,33 +103,33 @@ theorem flatten_take_succ (fs : List Bytes) (i : Nat) (hi : i < fs.length) :
 /-- the reader, given a well-formed block, hands filter `idx` to the policy -/
 theorem filterMatch_layout (p : Policy) (fs : List Bytes) (off : Nat) (key : Bytes)
     (hlen : fs.flatten.length < 2 ^ 32) (hidx : off / filterBase < fs.length) :
-    filterMatch p (layout fs) off key = p.mayMatch (fs[off / filterBase]'hidx) key := by
+    filterMatch p (filterLayout fs) off key = p.mayMatch (fs[off / filterBase]'hidx) key := by
   have hn := layout_length fs
   -- the three words the reader looks at
   have hw : ∀ i (hi : i < fs.length + 1),
-      fixed32At (layout fs) (fs.flatten.length + i * 4) = (fs.take i).flatten.length := by
+      fixed32At (filterLayout fs) (fs.flatten.length + i * 4) = (fs.take i).flatten.length := by
     intro i hi
     have hi' : i < (offsetsOf' fs).length := by rw [offsetsOf'_length]; exact hi
     rw [layout_eq, fixed32At_entry _ _ _ i hi', offsetsOf'_getElem]
     apply Nat.mod_eq_of_lt
     exact Nat.lt_of_le_of_lt (flatten_take_le fs i) hlen
-  have hlast : fixed32At (layout fs) ((layout fs).length - 5) = fs.flatten.length := by
-    have : (layout fs).length - 5 = fs.flatten.length + fs.length * 4 := by omega
+  have hlast : fixed32At (filterLayout fs) ((filterLayout fs).length - 5) = fs.flatten.length := by
+    have : (filterLayout fs).length - 5 = fs.flatten.length + fs.length * 4 := by omega
     rw [this, hw fs.length (by omega), List.take_length]
-  have hlg : ((layout fs).getD ((layout fs).length - 1) 0).toNat % 64 = filterBaseLg := by
-    have hidx1 : (layout fs).length - 1 =
+  have hlg : ((filterLayout fs).getD ((filterLayout fs).length - 1) 0).toNat % 64 = filterBaseLg := by
+    have hidx1 : (filterLayout fs).length - 1 =
         (fs.flatten ++ (offsetsOf' fs).flatMap (fixedEnc 4)).length := by
       rw [List.length_append, flatMap_fixedEnc4_length, offsetsOf'_length]; omega
     rw [List.getD_eq_getElem?_getD, hidx1, layout_eq, List.getElem?_append_right (Nat.le_refl _)]
     simp [filterBaseLg]
   unfold filterMatch filterReaderInit
-  have h5 : ¬ (layout fs).length < 5 := by omega
+  have h5 : ¬ (filterLayout fs).length < 5 := by omega
   simp only [h5, if_false, hlast, hlg]
-  have hle : ¬ fs.flatten.length > (layout fs).length - 5 := by omega
+  have hle : ¬ fs.flatten.length > (filterLayout fs).length - 5 := by omega
   simp only [hle, if_false]
   unfold FilterReader.mayMatch
   simp only
-  have hnum : ((layout fs).length - 5 - fs.flatten.length) / 4 = fs.length := by omega
+  have hnum : ((filterLayout fs).length - 5 - fs.flatten.length) / 4 = fs.length := by omega
   have hbase : (2 : Nat) ^ filterBaseLg = filterBase := rfl
   rw [hnum, hbase]
   simp only [hidx, if_true]
@@ -148,7 +148,7 @@ theorem filterMatch_layout (p : Policy) (fs : List Bytes) (off : Nat) (key : Byt
   have hD : fs.flatten = (fs.take (off / filterBase)).flatten ++ fs[off / filterBase]
       ++ (fs.drop (off / filterBase + 1)).flatten := by
     rw [← hsucc, ← List.flatten_append, List.take_append_drop]
-  have hfull : layout fs = (fs.take (off / filterBase)).flatten ++ fs[off / filterBase]
+  have hfull : filterLayout fs = (fs.take (off / filterBase)).flatten ++ fs[off / filterBase]
       ++ ((fs.drop (off / filterBase + 1)).flatten ++ (offsetsOf' fs).flatMap (fixedEnc 4)
           ++ [UInt8.ofNat filterBaseLg]) := by
     rw [layout_eq]
@@ -323,14 +323,14 @@ theorem foldl_addBlock_spec (p : Policy) (hs : p.Sound) (blocks : List (Nat × L
     · exact hgood' _ _ (hnew1 key hk)
     · exact hnew' c hmem key hk
 
-/-- `finish`: the result is the layout of a filter list in which everything good is covered -/
+/-- `finish`: the result is the filterLayout of a filter list in which everything good is covered -/
 theorem finish_spec (p : Policy) (hs : p.Sound) (fb : FilterGen) (fs : List Bytes) (h : GenInv fb fs) :
-    ∃ fs', fb.finish p = layout fs' ∧ ∀ idx key, Good p fb fs idx key → Covered p fs' idx key := by
+    ∃ fs', fb.finish p = filterLayout fs' ∧ ∀ idx key, Good p fb fs idx key → Covered p fs' idx key := by
   unfold FilterGen.finish
   cases hp : fb.pending.isEmpty with
   | true =>
     refine ⟨fs, ?_, ?_⟩
-    · simp only [if_true]; unfold layout; rw [h.res, h.offs]
+    · simp only [if_true]; unfold filterLayout; rw [h.res, h.offs]
     · intro idx key hg
       rcases hg with hc | ⟨_, hm⟩
       · exact hc
@@ -339,12 +339,12 @@ theorem finish_spec (p : Policy) (hs : p.Sound) (fb : FilterGen) (fs : List Byte
   | false =>
     have hinv := generate_inv p fb fs h
     refine ⟨fs ++ [genFilter p fb.pending], ?_, fun idx key hg => generate_good p hs fb fs idx key hg⟩
-    simp only [Bool.false_eq_true, if_false]; unfold layout; rw [hinv.res, hinv.offs]
+    simp only [Bool.false_eq_true, if_false]; unfold filterLayout; rw [hinv.res, hinv.offs]
 
-/-- the built block is the layout of filters that cover every added key at its block's index -/
+/-- the built block is the filterLayout of filters that cover every added key at its block's index -/
 theorem filterBuild_spec (p : Policy) (hs : p.Sound) (blocks : List (Nat × List Bytes))
     (hsorted : List.Pairwise (fun a b => a.1 ≤ b.1) blocks) :
-    ∃ fs, filterBuild p blocks = layout fs ∧
+    ∃ fs, filterBuild p blocks = filterLayout fs ∧
       ∀ b ∈ blocks, ∀ key ∈ b.2, Covered p fs (b.1 / filterBase) key := by
   unfold filterBuild
   have h0 : GenInv ({} : FilterGen) [] := ⟨rfl, rfl⟩
